@@ -353,7 +353,9 @@ def fam_multipolygons(thorough=False):
         F = sq(4, 4, 6, 6, ccw)             # nested in E's hole
         Fo = sq(4, 4, 6, 6, not ccw, 2)     # nested, wound the other way
         T = (poly_ring([(6, 0), (10, 0), (10, 4)], ccw),)
-        out += [(A,), (E,), (A, B), (B, A), (A, C), (A, D), (D, A), (E, F), (F, E), (E, Fo), (A, T), (T, B)]
+        Bo = sq(6, 6, 10, 10, not ccw, 1)   # same size as A, wound the other way: the signed areas of the parts cancel
+        Do = sq(4, 0, 8, 4, not ccw, 3)
+        out += [(A,), (E,), (A, B), (B, A), (A, C), (A, D), (D, A), (E, F), (F, E), (E, Fo), (A, T), (T, B), (A, Bo), (Bo, A), (A, Do)]
         if thorough:
             out += [(A, B, T), (A, D, B), (E, F, ), (A, C, T), (T, A, B), (B, T, A)]
     return out
